@@ -14,7 +14,9 @@ int main() {
   Quality::SetCircularSegments(3);  // valid (>= 3) per SetCircularSegments
   puts("SetCircularSegments(3); Sphere(1.0) ...");
   fflush(stdout);
-  Manifold s = Manifold::Sphere(1.0);  // n = 3/4 = 0 -> Subdivide(-1): allocation of 2^64-240 bytes (ASan: allocation-size-too-big)
+  // n = 3/4 = 0 -> Subdivide(-1). Before commit bfd6818e this asked for 2^64-240 bytes (ASan:
+  // allocation-size-too-big); since bfd6818e the negative count is clamped and the octahedron comes back.
+  Manifold s = Manifold::Sphere(1.0);
   printf("returned %zu tris\n", s.NumTri());
   Quality::ResetToDefaults();
 }
